@@ -5,8 +5,12 @@ NP and presence containers, lists holding all of these; what Tree.v models, no w
 PARSE_ONLY parse (no implicit nodes yet) and by edit histories (lyx commands freen / freepath / chgpath / newpath, and
 a print with tagged defaults parsed back, which yields nodes that are new AND default) -> libyang (impl/lyx.c) runs
 lyd_validate_all / lyd_new_implicit_all with the returned diff, dumps the tree (default and new flags) and the diff, and
-prints the tree in the five with-defaults modes -> the extracted model (validate_all / implicit_all / wd_print_forest)
-must produce the identical dump, the same net change list and the same set of printed nodes (+ default tags).
+prints the tree in the five with-defaults modes in XML AND in JSON -> the extracted model (validate_all / implicit_all /
+wd_print_forest) must produce the identical dump, the same net change list and, per node INSTANCE in document order
+(position-aware for leaf-lists and lists), the same printed nodes and default tags: the XML documents are read with expat
+(attribute ncwd:default), the JSON documents with python's json (metadata objects "@name", the leaf-list metadata ARRAYS
+with nulls of RFC 7952 5.2.2). Leaf-lists with several defaults often get explicit instances equal / not equal to default
+values in every order (DfltInstGen). LYB is left out (it ignores the tag options: a C01 finding).
 
 Two stages as in comps_tree.TreeIO: the tree BEFORE each validation is the model's input, so gen() runs the history once
 on the implementation (stage 1) and stores the dump taken before every validation in the case line as a pseudo command
@@ -89,6 +93,27 @@ class DfltSchemaGen(yanggen.SchemaGen):
         return yanggen.SChoice(self.nm("ch"), cases, default=default, mandatory=mand)
 
 
+class DfltInstGen(yanggen.InstGen):
+    """InstGen whose leaf-lists with schema defaults often mix explicit instances equal to a default value with others, in
+    every order for user-ordered / state leaf-lists (report-all-tagged must tag exactly the default-valued instances)"""
+
+    def instances(self, n, depth, forced=False):
+        rng = self.rng
+        if n.kind == "leaf-list" and n.defaults and not n.minel and rng.random() < 0.6:
+            pool = list(n.defaults) + [n.type.valid(rng) for _ in range(3)]
+            hi = n.maxel if n.maxel is not None else 5
+            vals = []
+            for _ in range(rng.randint(1, max(1, min(hi, 5)))):
+                v = rng.choice(pool)
+                if n.config and v in vals:
+                    continue
+                vals.append(v)
+            if not n.userord and n.config:
+                vals = sorted(vals, key=n.type.sort_key)
+            return [self.term(n, v) for v in vals]
+        return super().instances(n, depth, forced)
+
+
 def dflt_case(rng, **kw):
     """(module, instance generator): what Tree.v models, no unique statements"""
     for _ in range(50):
@@ -98,7 +123,7 @@ def dflt_case(rng, **kw):
             if n.kind == "list":
                 n.unique = None
         if treeenc.supported(m):
-            return m, yanggen.InstGen(rng, meta_prob=0.0)
+            return m, DfltInstGen(rng, meta_prob=0.0)
     raise RuntimeError("no supported module generated")
 
 
@@ -212,6 +237,8 @@ class DfltModel(Comp):
                 ke = PRINT_KEEPEMPTY if rng.random() < 0.3 else 0
                 for mode in PRINT_MODES:
                     s.print(0, "x", PRINT_SIBLINGS | PRINT_SHRINK | ke | mode)
+                for mode in PRINT_MODES:
+                    s.print(0, "j", PRINT_SIBLINGS | PRINT_SHRINK | ke | mode)
                 # edits for the next round
                 r = rng.random()
                 if r < 0.12:
@@ -399,7 +426,73 @@ class DfltModel(Comp):
         rec(t, 0)
         return "".join(out) if out else "nothing"
 
-    def impl_parts(self, line, out):
+    @classmethod
+    def printed_json(cls, line, jsonbytes):
+        """the same rendering from a JSON document (RFC 7951 / RFC 7952): one entry per node INSTANCE in document order,
+        the default tag taken from the metadata object "@name" of a leaf, from the i-th element of the metadata ARRAY
+        "@name" (null = no metadata) of the i-th leaf-list instance; read with python's json, member order kept"""
+        import json
+        txt = jsonbytes.decode("utf-8", "replace")
+        if not txt.strip():
+            return "nothing"
+        try:
+            doc = json.loads(txt, object_pairs_hook=list)
+        except ValueError:
+            return "unparsable"
+        by = cls.tables(line)
+        out = []
+
+        def canon(v):
+            if v is True:
+                return "true"
+            if v is False:
+                return "false"
+            if isinstance(v, list):          # [null]: type empty
+                return ""
+            return str(v)
+
+        def is_tagged(meta):
+            return isinstance(meta, list) and any(k == "ietf-netconf-with-defaults:default" and v is True for k, v in meta)
+
+        def rec(pairs, parent, depth):
+            metas = {k[1:]: v for k, v in pairs if k.startswith("@") and k != "@"}
+            for name, val in pairs:
+                if name.startswith("@"):
+                    continue
+                local = name
+                if ":" in name:
+                    mod, local = name.split(":", 1)
+                    if mod != "m1":
+                        continue
+                ent = by.get((parent, local))
+                if ent is None:
+                    out.append("unknown-member:%s;" % name)
+                    continue
+                sid, kind, keys = ent
+                meta = metas.get(name)
+                if kind == "l":
+                    v = canon(val)
+                    out.append("%d:%s:%s:%s;" % (depth, local, hexs(v) if v else "-", "t" if is_tagged(meta) else ""))
+                elif kind == "L":
+                    for i, x in enumerate(val):
+                        v = canon(x)
+                        mi = meta[i] if isinstance(meta, list) and i < len(meta) else None
+                        # a metadata ARRAY is a list of (objects as pair lists | None); a pair list is a tagged object
+                        out.append("%d:%s:%s:%s;" % (depth, local, hexs(v) if v else "-", "t" if is_tagged(mi) else ""))
+                    if isinstance(meta, list) and len(meta) > len(val):
+                        out.append("meta-array-longer-than-leaf-list:%s;" % name)
+                elif kind == "k":
+                    for inst in val:
+                        out.append("%d:%s:-:;" % (depth, local))
+                        rec(inst, sid, depth + 1)
+                else:
+                    out.append("%d:%s:-:;" % (depth, local))
+                    if isinstance(val, list):
+                        rec(val, sid, depth + 1)
+        rec(doc, None, 0)
+        return "".join(out) if out else "nothing"
+
+    def impl_parts(self, line, out, raw=False):
         r = results(out)
         cmds = line.split("\t")[1:]
         parts = []
@@ -411,7 +504,9 @@ class DfltModel(Comp):
             elif c.startswith("val ") or c.startswith("implicit "):
                 tag = "V" if c[0] == "v" else "I"
                 if rc(r[k]) != 0:
-                    parts.append(tag + "E" + ("" if rc(r[k]) == 7 else str(rc(r[k]))))     # 7 = LY_EVALID
+                    # an error (for the comparison any error; raw: with the code unless it is LY_EVALID = 7: on data the
+                    # model rejects too, which error comes first does not matter)
+                    parts.append(tag + "E" + ("" if (rc(r[k]) == 7 or not raw) else str(rc(r[k]))))
                     break
                 if k + 2 < len(r):
                     parts.append("%s0 %s # %s" % (tag, self.only_m1(r[k + 1]),
@@ -420,6 +515,8 @@ class DfltModel(Comp):
                         parts.append("Q")
             elif c.startswith("print t0 x "):
                 parts.append("P%s %s" % (c.split(" ")[3], self.printed(payload(r[k])) if rc(r[k]) == 0 else "print-failed"))
+            elif c.startswith("print t0 j "):
+                parts.append("PJ%s %s" % (c.split(" ")[3], self.printed_json(line, payload(r[k])) if rc(r[k]) == 0 else "print-failed"))
             k += 1
         return parts
 
@@ -460,7 +557,7 @@ class DfltModel(Comp):
                 return ("vdiff-dupinst", "crash while building the validation diff of a duplicate-instance list: " + impl_out[:80])
             return (None, "crash: " + impl_out)
         a = self.norm(line, model_out).split(" | ")
-        b = self.norm(line, impl_out).split(" | ")
+        b = self.impl_parts(line, impl_out, raw=True) if " | end:" in impl_out else self.norm(line, impl_out).split(" | ")
         for i, (x, y) in enumerate(zip(a, b)):
             if x == y:
                 continue
@@ -510,10 +607,19 @@ class DfltModel(Comp):
                 return ("vdiff-np-recreate", "lyd_validate_all(.., &diff) returns LY_EINVAL on valid data: a default NP container "
                                              "is auto-deleted (not recorded) and its path is used again by the same validation (%s)"
                         % raw[i + 1].split(" S=")[1])
+            if x[:2] == "PJ" and y[:2] == "PJ" and x.split(" ")[0] == y.split(" ")[0]:
+                # the XML output of the same tree with the same options agrees with the model: the two serialisations of
+                # libyang disagree on which node instances are printed / carry the default tag
+                xo = "P" + x.split(" ")[0][2:]
+                xml_i = [z for z in b if z.split(" ")[0] == xo]
+                if xml_i and xml_i[0].split(" ", 1)[1] != y.split(" ", 1)[1]:
+                    return (None, "with-defaults print (options %s): the JSON document and the XML document of the same tree differ "
+                                  "in the printed node instances / default tags: JSON %s, XML %s" % (xo[1:], y[:300], xml_i[0][:300]))
             if x[:1] == "P" and y[:1] == "P" and x.split(" ")[0] == y.split(" ")[0] and " R=1" in x:
                 # the model's selection is the RFC 6243 view (R=1) and libyang printed something else
-                return (None, "with-defaults print (options %s): the printed node set / default tags differ from the RFC 6243 "
-                              "view of the tree: printed %s, RFC %s" % (x.split(" ")[0][1:], y[:300], x[:300]))
+                return (None, "with-defaults print (%s, options %s): the printed node instances / default tags differ from the "
+                              "RFC 6243 view of the tree: printed %s, RFC %s"
+                        % ("JSON" if x[1] == "J" else "XML", x.split(" ")[0].lstrip("PJ"), y[:300], x[:300]))
             if x[:2] == "V0" and y[:2] == "V0" and x.split(" # ")[0] != y.split(" # ")[0]:
                 # another tree than the model's: is libyang's tree the normal form?
                 q = self.model_q(line, y.split(" # ")[0][3:])
